@@ -2,6 +2,7 @@
 Adapters that call the real code of REPO in-process and canonicalise results
 into protocol result strings.  One function per protocol op.
 """
+import io
 import os
 import sys
 
@@ -37,13 +38,30 @@ def err(e: BaseException) -> str:
     return "err " + type(e).__name__
 
 
+class CStream(io.StringIO):
+    """a text stream that belongs to the caller: the library reads from it or writes to it, it does not close it"""
+    closed_by_callee = 0
+
+    def close(self):
+        CStream.closed_by_callee += 1
+        super().close()
+
+    def __del__(self):          # garbage collection is not the library closing the stream
+        pass
+
+
 def evaluate(line: str) -> str:
     parts = line.split(" ")
     f = OPS.get(parts[0])
     if f is None:
         mod = parts[0].split(".")[0]
         raise KeyError("no implementation adapter for op " + parts[0])
-    return f(*parts[1:])
+    before = CStream.closed_by_callee
+    res = f(*parts[1:])
+    if CStream.closed_by_callee != before:
+        return ("FAIL " if parts[0].startswith("prop.") else "err CallerStreamClosed ") + \
+            "the call closed a stream object that was handed to it (streams belong to the caller; only paths are opened and closed)"
+    return res
 
 
 def mkfile(comments=None, comps=None):
